@@ -11,6 +11,8 @@ VARIABLES s, op, phase
 vars == <<s, op, phase>>
 
 Elems == IF Elem = "int" THEN {1, 2, 3}
+         \* floats (bit patterns): 1.21 and 1.25 print alike on a stack ("1.2"), the two zeros are ==, NaN equals nothing
+         ELSE IF Elem = "float" THEN {1067114824, 1067450368, 0, -2147483647 - 1, 2143289344}
          \* two items that print alike; two lists that differ only deep inside
          \* ... and a name whose text is not ASCII
          ELSE {IId("NOOP"), IIns("NOOP"), IList(<<IInt(1), IList(<<IInt(2)>>)>>), IList(<<IInt(1), IList(<<IInt(3)>>)>>), IId("é")}
